@@ -81,8 +81,13 @@ def run_case(c):
     viol = []
     obs = {}
     n = 1 << (N * m)
+    # every third structural case runs on an object that lived on another box first and was moved to the unit box with SetBounds
+    rb = None
+    if kind in ("adj", "nest", "win") and (c.get("a", 0) // 7 + N + m + len(c.get("starts", []))) % 3 == 0:
+        rb = scenario.rng_for(c.get("seed", 0), "C08rb", "%s-%d-%d-%s" % (kind, N, m, c.get("a", c.get("starts", [0])[:1])))
+        obs["structural_cases_on_rebounded_objects"] = 1
     if kind == "adj":
-        ev = em.unit_evolvent(N, m)
+        ev = em.unit_evolvent(N, m, rb)
         hi = min(c["b"], n - 1)
         cs = cells(ev, [i / n for i in range(c["a"], hi + 1)], m, viol)
         for k in range(len(cs) - 1):
@@ -91,8 +96,8 @@ def run_case(c):
         return {"violations": viol, "obs": obs, "nontrivial": True, "key": "adj|%d|%d|%d" % (N, m, c["a"]),
                 "sample": {"kind": "adjacency sweep", "N": N, "m": m, "range": [c["a"], c["b"]]} if c["a"] == 0 and m > 2 else None}
     if kind == "nest":
-        ev = em.unit_evolvent(N, m)
-        ev2 = em.unit_evolvent(N, m + 1)
+        ev = em.unit_evolvent(N, m, rb)
+        ev2 = em.unit_evolvent(N, m + 1, rb)
         n2 = n << N
         cnt = 0
         for i in range(c["a"], c["b"]):
@@ -107,8 +112,8 @@ def run_case(c):
         return {"violations": viol, "obs": obs, "nontrivial": True, "key": "nest|%d|%d|%d" % (N, m, c["a"]),
                 "sample": {"kind": "nesting sweep", "N": N, "m": m, "range": [c["a"], c["b"]]} if c["a"] == 0 and m > 1 else None}
     if kind == "win":
-        ev = em.unit_evolvent(N, m)
-        evc = em.unit_evolvent(N, m - 1)
+        ev = em.unit_evolvent(N, m, rb)
+        evc = em.unit_evolvent(N, m - 1, rb)
         nc = n >> N
         pairs = 0
         nested = 0
@@ -132,7 +137,15 @@ def run_case(c):
                 "sample": {"kind": "windows", "N": N, "m": m, "starts": c["starts"][:3], "W": c["W"]} if N * m >= 45 else None}
     if kind == "holder":
         rng = scenario.rng_for(c["seed"], "C08hr", c["i"])
-        ev = Evolvent(c["lower"], c["upper"], N, m)
+        if c["i"] % 2:
+            # the object answered queries on another box before it was given this one
+            plo = rng.uniform(-50, 50, N)
+            ev = Evolvent(plo, plo + 10 ** rng.uniform(-2, 2, N), N, m)
+            ev.GetImage(float(rng.random()))
+            ev.SetBounds(c["lower"], c["upper"])
+            obs["holder_cases_on_rebounded_objects"] = 1
+        else:
+            ev = Evolvent(c["lower"], c["upper"], N, m)
         side = np.array(c["upper"], dtype=float) - np.array(c["lower"], dtype=float)
         smax = float(side.max())
         K = 2.0 * math.sqrt(N + 3.0)
@@ -175,7 +188,8 @@ def run_case(c):
 def finalize(obs, tier, stats):
     if obs.get("max_Nm", 0) < 50:
         return "windows never reached N*m = 50", {}
-    for k in ("adjacent_pairs", "nested_children", "window_adjacent_pairs", "window_nested", "holder_pairs"):
+    for k in ("adjacent_pairs", "nested_children", "window_adjacent_pairs", "window_nested", "holder_pairs", "structural_cases_on_rebounded_objects",
+              "holder_cases_on_rebounded_objects"):
         if not obs.get(k):
             return "monitor %s never ran" % k, {}
     return None, {}
